@@ -236,6 +236,26 @@ def case_rule(ctx, rule):
 def case_and_compare(ctx):
     F, rep = ctx.F, ctx.rep
     case_rule(ctx, "C15.R4")
+    rep.rule("C15.R6", "whether a name was already lower-case is invisible: only the methods of Lowercased itself branch on its Ref / New "
+             "variants; any other code that distinguishes them treats a name differently from its re-cased spelling")
+    from .. import tables as _tables
+    LC = "exec::sym_table::Lowercased"
+    n6 = 0
+    for fn in F.all_bodies(tests=False):
+        if fn.is_derived():
+            continue
+        for sb in range(len(fn.blocks)):
+            sw = _tables.switch_on_discr(fn, sb)
+            if not sw or sw[1].peel_refs().adt() != LC:
+                continue
+            n6 += 1
+            top = common.top_fn(F, fn)
+            isf = top.d.get("impl_self")
+            isf = F.ty(isf).peel_refs().adt() if isinstance(isf, int) else (isf or "")
+            ok = (isf or "").startswith(LC) or top.path.startswith(LC + "::") or top.path.startswith("<" + LC)
+            rep.ob("C15.R6", "inspects-lowercased::%s" % top.path, ok, "" if ok else "%s branches on whether the folded name is Lowercased::Ref or ::New, i.e. on whether the spelling contained a capital" % top.path,
+                   fn.loc(fn.term(sb).get("line")), how="method of Lowercased")
+    rep.floor("C15.R6", n6, 1, "branches on the Lowercased variant")
     # ---- R5
     targets = [i for i, inst in enumerate(F.insts)
                if any(("<frontend::ast::%s as std::%s" % (nt, tr)) in inst.def_ for nt in NAME_TYPES for tr in ("cmp::PartialEq>", "hash::Hash>", "cmp::Ord>", "cmp::PartialOrd>"))]
